@@ -78,8 +78,12 @@ def make_case(rng, b, sg_name, fam, orient, supercell=None):
         traj = Trajectory(species=[Species('Li')] * len(P), coords=frac[None, :, :], lattice=Lattice(M * sc[:, None]), time_step=1e-15)
         gen.perturb(traj, rng)
         before = np.array(traj.positions, copy=True)
+        if rng.random() < 0.6:
+            traj.displacements             # the trajectory is handed over in its displacement representation
         sa.analyze_trajectory(traj, supercell=tuple(int(x) for x in sc), radius=radius)
         # analysing must not alter the trajectory: the second analysis of the same object is the one that is judged
+        if rng.random() < 0.5:
+            traj.cumulative_displacements
         shapes = sa.analyze_trajectory(traj, supercell=tuple(int(x) for x in sc), radius=radius)
         input_changed = not np.array_equal(np.asarray(traj.positions), before)
     sh = shapes[0]
